@@ -176,6 +176,29 @@ def tp_cases(seed, tier):
     return out
 
 
+def directed_cases(seed, tier):
+    """Tapes steered to the upper edge of the format: one level-9 block of 900000 (or a few less) bytes of an order-3
+    de Bruijn sequence, i.e. 900001 prefix-coded symbols in 18001 groups -- more than bzip2 (blocks of at most 899981
+    bytes) ever produces.  Tape layout follows bzgen.hpp: streams, level, blocks, size class, big flag, distance from
+    capacity, de Bruijn flag, rotation; the rest (tables, selectors, delta paths, surplus selectors) is seeded noise."""
+    r = random.Random(seed * 7 + 3)
+    out = []
+    for k in range(4 if tier == "quick" else 24):
+        d_idx = [0, 0, 1, 2][k % 4]
+        tape = None
+        for _ in range(12):     # about every second rotation of the sequence gives exactly 900001 symbols
+            cand = bytes([0, 8, 0, 0, 15, d_idx, 1]) + r.randbytes(2) + r.randbytes(400)
+            if d_idx or "groups_18001" in bzk.gen(cand, allow_big=True)[2]["labels"]:
+                tape = cand
+                break
+        if tape is None:
+            continue
+        out.append({"tape": tape, "big": True,
+                    "cfg": {"n": [1, 4, 2, 16][k % 4], "sched": None if k % 2 else "serial:%d:pct:2:400" % r.randrange(10**6),
+                            "ing": None, "outg": None}, "directed": True})
+    return out
+
+
 def replay_case(case):
     exe = core.build("rel")
     st_ = core.Stats()
@@ -206,9 +229,14 @@ def run(tier, seed):
     s1, f1 = core.pmap_cases(make_tp_eval(exe), tp_cases(seed, tier))
     for f in f1:
         f["seed"], f["tier"] = seed, tier
+    s0, f0 = core.pmap_cases(make_eval(exe), directed_cases(seed, tier))
+    if not s0.labels.get("groups_18001"):
+        raise core.HarnessError("directed tapes no longer reach an 18001-group block: update directed_cases() to bzgen.hpp")
     n = 2500 if tier == "quick" else 60000
     stats, fails = core.hyp_search(strategy(tier), make_eval(exe), n, seed)
     stats.merge(s1)
+    stats.merge(s0)
+    fails = f0 + fails
     oc = core.conclude(PID, f1 + fails, replay_case)
     core.write_evidence(PID, tier, seed, "exploration", stats, RULE, time.time() - t0, violations=len(oc.violations),
                         assumptions=["bzgen, bzkit and libbz2 must agree that a generated file is valid and on its plaintext "
